@@ -69,12 +69,13 @@ Top1(sname) ==
           <<StepD(sname, <<"k1">>, 1, <<Simple("ALLOW", <<"*">>)>>, <<Simple("ALLOW", <<"*">>)>>)>>, << >>)
 
 MCInit ==
-  /\ \E sname \in SNames, n \in 1..3, state \in States, deepok \in BOOLEAN :
+  /\ \E sname \in SNames, n \in 0..3, state \in States, deepok \in BOOLEAN :
+       /\ (n = 0 => state \in {"valid", "expired", "othersigner", "nosig"} /\ ~Deep)   \* a sub-layout without steps: empty summary
        /\ (~Deep => deepok)
        /\ (state = "siblingdir" => sname = "s1.v2")
        /\ scn = Build(Top1(sname), Own("o1"),
                       <<Entry(<< >>, sname, FileKey(state), SubDoc(n, state))>>
-                      \o (IF state = "innermissing" THEN SubSeq(InnerEntries(sname, n, state, deepok), 1, n - 1)
+                      \o (IF state = "innermissing" /\ n > 0 THEN SubSeq(InnerEntries(sname, n, state, deepok), 1, n - 1)
                           ELSE InnerEntries(sname, n, state, deepok))
                       \o DeepEntries(sname, state), {})
   /\ VInitRest
